@@ -57,6 +57,37 @@ def replay_valid(prog, size, staple):
     not_reproduced("partition well-formed on every rank")
 
 
+def replay_value(prog, size, staple):
+    """C08 value part: evaluate the wired-together partition and the
+    unpartitioned global graph with NumPy on random inputs."""
+    import numpy as np
+
+    from .replaylib import eval_array
+    ctxs, res, raised = run_native(prog, size, staple)
+    if res is None:
+        not_reproduced(f"partitioning raised: {raised}")
+    parts = [s for s, _, _ in res]
+    try:
+        orig = D.global_original([ctxs[r].outputs for r in range(size)])
+        part = D.global_partitioned(parts, [{"x": ctxs[r].x}
+                                            for r in range(size)])
+    except (ValueError, KeyError) as e:
+        reproduced(f"the partition's data flow is not defined: {e}")
+    rng = np.random.default_rng(1)
+    data = {id(ctxs[r].x): rng.integers(-4, 5, D.SHAPE).astype(np.float64)
+            for r in range(size)}
+    for r in range(size):
+        for name, e0 in orig[r].items():
+            want = eval_array(e0, data)
+            got = eval_array(part[r][name], data)
+            if got.shape != want.shape or not np.allclose(got, want):
+                reproduced(f"program '{prog}' on {size} ranks: output "
+                           f"'{name}' of rank {r} computed by the partition "
+                           f"is {got.tolist()}, the unpartitioned graph "
+                           f"gives {want.tolist()}")
+    not_reproduced("partition and unpartitioned graph agree")
+
+
 def replay_fault(prog, size, staple, kind, rank, index):
     fault = D.Fault(kind, rank, index) if kind not in (None, "none") else None
     try:
